@@ -169,7 +169,14 @@ func descValue(v ssa.Value, depth int) string {
 	case *ssa.Index:
 		return descValue(x.X, depth+1) + "[]"
 	case *ssa.Slice:
-		return descValue(x.X, depth+1) + "[:]"
+		lo, hi := "", ""
+		if x.Low != nil {
+			lo = descValue(x.Low, depth+2)
+		}
+		if x.High != nil {
+			hi = descValue(x.High, depth+2)
+		}
+		return descValue(x.X, depth+1) + "[" + lo + ":" + hi + "]"
 	case *ssa.MakeInterface:
 		return descValue(x.X, depth+1)
 	case *ssa.ChangeType:
